@@ -225,6 +225,8 @@ def history_of(trace_lines, lineno):
     start = i
     while start > 0 and not trace_lines[start].startswith("cfg "):
         start -= 1
+    if not trace_lines[start].startswith("cfg "):
+        return trace_lines[i:i + 1]      # single-line case
     return trace_lines[start:i + 1]
 
 
@@ -264,7 +266,7 @@ def shrink(run, ops, kind, seed, budget=400):
 
 
 def stage_corr(pid, cfg, tier, seed):
-    res = dict(evaluations=0, lines=0, distinct=set(), dist={}, fails=[], samples=[], runs=[], crashed=[])
+    res = dict(evaluations=0, lines=0, distinct=set(), dist={}, fails=[], samples=[], runs=[], crashed=[], known={})
     nontriv = set(cfg["nontrivial"])
     for run in cfg["runs"]:
         sizes = run[tier]
@@ -302,12 +304,19 @@ def stage_corr(pid, cfg, tier, seed):
                         break
                     first.append(l)
                 res["samples"].append(first[:40])
-            for f in fails[:20]:
+            kept = 0
+            for f in fails:
+                k = match_known(pid, f)
+                if k:
+                    res["known"][k["what"]] = res["known"].get(k["what"], 0) + 1
+                    continue
+                if kept >= 20:
+                    res["more_fails"] = res.get("more_fails", 0) + 1
+                    continue
+                kept += 1
                 m = re.search(r"line=(\d+)", f)
                 ln = int(m.group(1)) if m else 1
                 res["fails"].append(dict(run=run, kind=f.split(" ", 1)[0], text=f, history=history_of(tl, ln), seed=seed))
-            if len(fails) > 20:
-                res["more_fails"] = len(fails) - 20
     return res
 
 
@@ -400,9 +409,15 @@ def main():
             violations.append((path, ""))
             found_input = True
         seen = set()
+        for what, cnt in corr["known"].items():
+            known_lines.append(f"KNOWN-FINDING: property={pid} {what}")
         for f in corr["fails"]:
             run = f["run"]
-            ops, shrunk = shrink(run, f["history"], f["kind"], f["seed"]) if f["kind"] != "BADLINE" else (f["history"], False)
+            k = match_known(pid, f["text"])
+            if k:
+                known_lines.append(f"KNOWN-FINDING: property={pid} {k['what']}")
+                continue
+            ops, shrunk = shrink(run, f["history"], f["kind"], f["seed"]) if (f["kind"] != "BADLINE" and len(f["history"]) > 2) else (f["history"], False)
             key = hashlib.sha1("\n".join(ops).encode()).hexdigest()[:10]
             if key in seen:
                 continue
@@ -478,6 +493,7 @@ def main():
             trace_lines_checked=corr["lines"],
             input_distribution=corr["dist"],
             correspondence_runs=corr["runs"],
+            known_finding_hits=corr["known"],
             model_mismatches=sum(1 for f in corr["fails"] if f["kind"] == "MISMATCH"),
             spec_failures=sum(1 for f in corr["fails"] if f["kind"] == "SPECFAIL"),
         )
